@@ -244,8 +244,33 @@ func (e *Engine) step(st *State, fr *Frame, in ssa.Instruction, onReturn func(*S
 	case *ssa.Panic:
 		e.oblige(st, "unreachable@panic", "", e.ordinal(in), False, "explicit panic must be unreachable", in.Pos())
 		return nil, true
-	case *ssa.Send, *ssa.Select, *ssa.MakeChan:
-		panic(unsupported(fmt.Sprintf("channel operation %T", in)))
+	case *ssa.Send:
+		// the receiving goroutine is not modelled: a send is an opaque step, recorded in the call log
+		e.chanAssumption(fr)
+		st.calls = append(st.calls, callRec{target: "chan-send", args: []Val{e.val(st, fr, x.Chan), e.val(st, fr, x.X)}, seq: len(st.calls)})
+	case *ssa.MakeChan:
+		e.chanAssumption(fr)
+		id := e.fresh("chan", IntS)
+		st.assume(Gt(id, Zero))
+		fr.regs[x] = VChan{Id: id}
+	case *ssa.Select:
+		// any case may be the one that proceeds; received values are arbitrary
+		e.chanAssumption(fr)
+		idx := e.fresh("select", IntS)
+		lo := Zero
+		if !x.Blocking {
+			lo = Num(-1)
+		}
+		st.assume(And(Le(lo, idx), Lt(idx, Num(int64(len(x.States))))))
+		out := []Val{VInt{idx}, VBool{e.fresh("recvOk", BoolS)}}
+		for i, sc := range x.States {
+			if sc.Dir == types.RecvOnly {
+				out = append(out, e.freshVal(st, under(sc.Chan.Type()).(*types.Chan).Elem(), fmt.Sprintf("recv%d", i)))
+			} else {
+				st.calls = append(st.calls, callRec{target: "chan-send?", args: []Val{e.val(st, fr, sc.Chan), e.val(st, fr, sc.Send)}, seq: len(st.calls)})
+			}
+		}
+		fr.regs[x] = VTuple{out}
 	default:
 		panic(unsupported(fmt.Sprintf("instruction %T", in)))
 	}
@@ -337,7 +362,12 @@ func (e *Engine) execUnOp(st *State, fr *Frame, x *ssa.UnOp) Val {
 		}
 		return VInt{Sub(NumB(ii.max()), v.(VInt).T)}
 	case token.ARROW:
-		panic(unsupported("channel receive"))
+		e.chanAssumption(fr)
+		rv := e.freshVal(st, under(x.X.Type()).(*types.Chan).Elem(), "recv")
+		if x.CommaOk {
+			return VTuple{[]Val{rv, VBool{e.fresh("recvOk", BoolS)}}}
+		}
+		return rv
 	}
 	panic(unsupported("unary " + x.Op.String()))
 }
@@ -905,4 +935,8 @@ func (e *Engine) execMakeSlice(st *State, fr *Frame, x *ssa.MakeSlice) Val {
 	obj := e.newObject(st)
 	e.zeroObject(st, elem, obj)
 	return VSlice{obj, Zero, ln, cp, elem}
+}
+
+func (e *Engine) chanAssumption(fr *Frame) {
+	e.Assumptions["channel operations in "+fr.fn.String()+": the communicating goroutines are not modelled (received values are arbitrary, any select case may proceed, blocking is not analysed)"] = true
 }
